@@ -167,12 +167,34 @@ def compare_with_oracle(summary, spec):
                 p, op['role'], show_cells(got), show_cells(want))))
     if len(expected) != width:
         raise AnalysisError('oracle table for {} does not cover all {} bits'.format(summary.name, width))
+    cells_of = {}
+    for p in summary.params:
+        info = derived_operand(summary, p)
+        if info is not None:
+            cells_of[info['src']] = canon(info['cells'])
     for i in range(width):
         got = summary.bits[i] if i < len(summary.bits) else 0
         want = expected[i]
+        # a symbolic operand bit that the accepted set forces to a constant *is* that constant
+        if isinstance(got, tuple) and got[0] in cells_of and want in (0, 1) and forced_bit(cells_of[got[0]], got[1]) == want:
+            continue
+        if isinstance(want, tuple) and want[0] in cells_of and got in (0, 1) and forced_bit(cells_of[want[0]], want[1]) == got:
+            continue
         if got != want:
             out.append(('bit', 'instruction bit {} is {} but the ISA puts {} there'.format(i, show_bit(got), show_bit(want))))
     return out
+
+
+def forced_bit(cells, j):
+    """0 / 1 when every accepted original value has that bit j (two's complement), else None."""
+    vals = set()
+    for (lo, hi, delta, m, r) in cells:
+        if lo <= -INF or hi >= INF:
+            return None
+        if (lo >> j) != (hi >> j):
+            return None
+        vals.add((lo >> j) & 1)
+    return vals.pop() if len(vals) == 1 else None
 
 
 def show_bit(b):
